@@ -217,21 +217,30 @@ class DF(PyStub):
         self.cols = dict(cols or {})
         self.csv = None
 
+    @staticmethod
+    def _name(k):
+        """a column name built by an f-string from text and whole numbers ('spos[' 0 ']') is the plain string"""
+        if isinstance(k, Text) and all(isinstance(x, str) or (isinstance(x, tuple) and len(x) == 2 and x[0] == 'val' and isinstance(x[1], (int, sp.Integer)) and not isinstance(x[1], bool)) for x in k.pieces):
+            return ''.join(x if isinstance(x, str) else str(int(x[1])) for x in k.pieces)
+        return k
+
     def __contains__(self, k):
-        return k in self.cols
+        return self._name(k) in self.cols
 
     def __getitem__(self, k):
         if isinstance(k, list):
+            k = [self._name(x) for x in k]
             missing = [x for x in k if x not in self.cols]
             if missing:
                 raise WouldRaise('KeyError: columns %s not in the table' % missing)
             return DF({x: self.cols[x] for x in k})
+        k = self._name(k)
         if k not in self.cols:
             raise WouldRaise('KeyError: column %r not in the table' % (k,))
         return self.cols[k]
 
     def __setitem__(self, k, v):
-        self.cols[k] = v
+        self.cols[self._name(k)] = v
 
     def __getattr__(self, k):
         if k.startswith('_') or k in ('cols', 'csv'):
@@ -241,6 +250,7 @@ class DF(PyStub):
         raise AttributeError(k)
 
     def rename(self, columns=None, **kw):
+        columns = {self._name(a): b for a, b in columns.items()}
         return DF({columns.get(k, k): v for k, v in self.cols.items()})
 
     def to_csv(self, path_or_buf=None, **kw):
